@@ -62,6 +62,13 @@ def main():
     for st in (("complex128",) if q else ("complex128", "complex64")):
         spec = {"tier": a.tier, "rel": REL_STRICT, "options": dict(STRICT_OPTS), "scalar": st}
         run_cases(chk, "vlib.formcheck", "run_form", cforms, spec, a.jobs)
+    from vlib import randforms
+    rc = [randforms.name_of(chk.seed, i, cplx=True) for i in range(12 if q else 200)] if not only else []
+    run_cases(chk, "vlib.formcheck", "run_form", rc, {"tier": "quick", "rel": REL_STRICT, "options": dict(STRICT_OPTS), "scalar": "complex128", "all_ids": True}, a.jobs)
+    rr = [randforms.name_of(chk.seed, i) for i in range(8 if q else 100)] if not only else []
+    run_cases(chk, "vlib.kvk", "compare", rr, {"tier": "quick", "A": {"scalar": "float64", "options": dict(STRICT_OPTS)}, "B": {"scalar": "float32", "options": dict(STRICT_OPTS)},
+                                               "mode": "rel", "rel": 1e-9, "real_data": True, "what": "float64 vs float32 on real data (random forms)", "b_may_reject": True, "single_precision": True}, a.jobs)
+    chk.extra["random_complex_forms"] = len(rc)
     chk.encoded("tabulate_tensor_float32/float64/complex64/complex128 texts of the same form", "C formatter math_table / dtype inference (through the emitted calls and declared types)")
     chk.bounds = {"programs": len(real_forms), "complex programs": len(cforms), "inputs": "re and im parts of every w, c symbolic (complex data); im = 0 (real data)"}
     chk.assumptions = ["exact arithmetic: 'to within the precision of the narrower type' is not modelled (rounding is outside)", "real arguments of sqrt/log/... lie in the function's real domain",
